@@ -111,7 +111,7 @@ func runC13(c *Ctx) {
 	c.Rule("C13.1", "permission before data: every emission in UDPConn.WriteTo (invoke WriteTo on the client, call of sendChannelData) is dominated by v == nil where every live phi-leaf of v is a call createPermission(_, perm, addr) with addr the method's own addr parameter; every nil return of createPermission is under CreatePermissions(addr)==nil or under perm.state() != idle; setState(permitted) is dominated by CreatePermissions(addr)==nil; the state test and the transition happen with perm.mutex write-held", 4)
 	{
 		n := 0
-		w.eachInstr(writeTo, func(in ssa.Instruction) {
+		w.eachInstrDeep(writeTo, func(in ssa.Instruction) {
 			call, ok := in.(*ssa.Call)
 			if !ok {
 				return
